@@ -437,8 +437,10 @@ def _check_run(plan, tag, nproc, O, data, offset, first_bytes, nc_out, res, od, 
         if rms.shape != (nbatches, nap) or ts.shape != (nbatches,):
             raise Violation("C06.g", f"{sigbase}:rms-count", f"rms {rms.shape} / timestamps {ts.shape}, expected {nbatches} batches x {nap} channels (ns={ns} nbatch={plan['nbatch']} workers={nproc})")
     else:
-        if rms.shape[0] != ts.shape[0] or rms.shape[0] < nbatches + 1:
-            raise Violation("C06.g", f"{sigbase}:rms-count-append", f"rms {rms.shape} / timestamps {ts.shape} after append, second run alone has {nbatches} batches")
+        stride = plan["nbatch"] - 2 * T
+        nb_first = max(0, -(-(plan["ns_first"] - plan["nbatch"]) // stride)) + 1
+        if rms.shape != (nb_first + nbatches, nap) or ts.shape != (nb_first + nbatches,):
+            raise Violation("C06.g", f"{sigbase}:rms-count-append", f"rms {rms.shape} / timestamps {ts.shape} after append; the two runs have {nb_first} + {nbatches} batches")
     if plan["saturate"] and satv.any():
         probe("saturation_detected")
 
